@@ -31,22 +31,32 @@ import common                                  # noqa: E402
 import pyfacts                                 # noqa: E402
 
 ID = 'C08'
-LEAN_MODULES = ['Yaql.Props.C08', 'Yaql.Props.C08Gen']
+LEAN_MODULES = ['Yaql.Props.C08', 'Yaql.Props.C08Gen', 'Yaql.Props.C08EvalMono', 'Yaql.Props.C08EvalOff', 'Yaql.Props.C08Eval']
 REQUIRED_THEOREMS = ['Yaql.Props.C08.' + n for n in (
     'limit_pulls', 'limit_prefix', 'limit_endless_raises', 'unlimited_never_raises', 'limit_sized',
     'finalize_bounded', 'finalize_refuses', 'repeat_estimate_safe', 'repeat_nonpositive', 'repeat_estimate_safe_str',
     'memorize_bounded', 'quota_flow', 'quota_result', 'frozen_dict_measured', 'dict_set_checked')] + ['Yaql.Props.C08Gen.' + n for n in (
         'consumers_limited', 'producers_limited', 'frozen_dict_unmeasured_old', 'table_nonvacuous', 'sizes_ok', 'repeat_estimate_safe_now',
-        'repeat_estimate_safe_str_now', 'repeat_estimate_unsafe_old')]
+        'repeat_estimate_safe_str_now', 'repeat_estimate_unsafe_old')] + ['Yaql.Props.C08Eval.' + n for n in (
+            'evalL_off', 'runL_off', 'evalL_rel', 'runL_rel', 'evalL_refines', 'runL_refines', 'limits_monotone',
+            'limits_monotone_error', 'new_outcomes', 'quota_flow_eval', 'quota_flow_eval_bound', 'quota_refuses', 'quota_flow_let',
+            'quota_flow_ucall', 'quota_flow_receiver', 'limit_flow_iter', 'limit_sized_refuses', 'limitLazy_run',
+            'limit_flow_result')]
 TRUSTED = ['harness/gens/limitfacts.py: classification of parameter types (live `check` with a generator object) and '
            'of syntactic uses (AST walk, helper calls followed two levels); cross-checked by the dynamic sweep',
            'harness/gens/sizes.py: sys.getsizeof constants of the running CPython, linear shape verified on samples',
-           'sys.getsizeof as the measure of "size" (as the library itself uses it)']
+           'sys.getsizeof as the measure of "size" (as the library itself uses it)',
+           'Yaql/Model/EvalLimits.lean (hand-written: Eval + the two mechanisms) and harness/gens/evalsizes.py (None / bool / '
+           'int / dict-table / list(<generator>) sizes, the largest non-data object the engine measures), tied to the code '
+           'by part V; harness/evalgen.py + props/c04.py (program generator, renderer, parse-back check)']
 ASSUMPTIONS = ['a lazy sequence is an iterator given by item index -> item (finite or endless); pulling has no effect but '
                'producing the next item',
                'lists produced by `left * k` are allocated exactly; other lists may be over-allocated (their real size is '
                '>= the modelled one, which only makes the estimate larger)',
-               'quota_flow is proved for first-order call trees with abstract payloads (no full evaluator model here)',
+               'C08.quota_flow is about first-order call trees with abstract payloads; the C08Eval theorems are about the '
+               'instrumented C04 interpreter (fragment and out-of-domain cases of C04; sizes: shallow sys.getsizeof, '
+               'non-data objects between objMin and objMax, dicts whose keys are partly strings and floats / sets are "no '
+               'prediction" under a quota); part V exercises quotas >= objMax only',
                'the per-step checks inside distinct / groupBy / toDict / generate / memorize bound internal state that is '
                'never handed on; they are modelled (memorize_bounded) but not observable from outside']
 
@@ -58,7 +68,7 @@ KNOWN_FD = 'frozendict-unmeasured'
 
 
 def generate():
-    return pyfacts.run(['Sizes', 'LimitFacts'])
+    return pyfacts.run(['Sizes', 'LimitFacts', 'EvalSizes'])
 
 
 # =============================================================================== worker side
@@ -940,6 +950,11 @@ def run(env, res):
     if env['replay']:
         rp = json.load(open(env['replay']))
         c = rp['case']
+        if c.get('part') == 'V':
+            from props import c08eval
+            c08eval.replay(env, res, c)
+            res.extra['histogram'] = hist
+            return res
         if c.get('op') in ('sweep', 'expr'):
             out = run_pool([c], 1)[0]
             res.case(common.digest(c), True, sample=c)
@@ -952,6 +967,15 @@ def run(env, res):
             # R / L cases are cheap: rerun the whole part
             (run_shapes if c.get('part') == 'R' else run_limit_direct)(env, res, rng, hist)
         res.extra['histogram'] = hist
+        return res
+
+    # ---- V: whole programs under both limits against the instrumented evaluator model (own pool, runs meanwhile)
+    from props import c08eval
+    vhandle = c08eval.start(env)
+    vhist = {}
+    if os.environ.get('C08_PARTS') == 'V':          # development: the evaluator part alone
+        c08eval.finish(vhandle, env, res, vhist)
+        res.extra['histogram'] = dict(evaluator=vhist)
         return res
 
     # ---- S + E + Q in the worker pool
@@ -1069,10 +1093,12 @@ def run(env, res):
     # ---- L + R in process (finite data)
     run_limit_direct(env, res, rng, lhist)
     run_shapes(env, res, rng, rhist)
+    c08eval.finish(vhandle, env, res, vhist)
 
     known = {k['key'] for k in common.known_findings() if k['property'] == ID and k.get('status') == 'known'}
     res.failures.sort(key=lambda f: f.key in known)
-    res.extra['histogram'] = dict(sweep_and_expressions=hist, quota=qhist, shapes=rhist, limit_iterable=lhist)
+    res.extra['histogram'] = dict(sweep_and_expressions=hist, quota=qhist, shapes=rhist, limit_iterable=lhist,
+                                  evaluator=vhist)
     res.extra['registered_functions'] = nfuncs
     res.extra['sweep_positions'] = len(positions)
     res.extra['sweep_cases'] = len(cases)
@@ -1095,10 +1121,29 @@ LEVEL_TEXT = ('Lean 4 theorems over a model of utils.limit_iterable (counting ge
               'registry), and no payload iterates the result of a lambda it calls except through limit_iterable '
               '(producers_limited). Tie and oracle: endless instrumented sources into every registered '
               'function and position in watchdogged, address-space-limited worker processes; result shapes around the limit; '
-              'quota boundaries and 10**10 repetitions against the model.')
-LEVEL_NOTE = ('trusted: Lean kernel; hand-written models Yaql/Model/Limits.lean and Convert.lean; the translator '
-              '(harness/gens/limitfacts.py, sizes.py); sys.getsizeof. quota_flow is about an abstract first-order evaluator, not '
-              'the yaql evaluator. The two defects this check found (nested-iterators-unlimited, frozendict-unmeasured) are '
+              'quota boundaries and 10**10 repetitions against the model. '
+              'OVER THE EVALUATOR (C08Eval, C08EvalMono, C08EvalOff): evalL = the C04 reference interpreter Eval.eval with '
+              'limit_memory_usage at every parameter binding and every call result and limit_iterable at every Iterable() '
+              'parameter, in list() and in the finaliser, placed where runner.call / SmartType.convert / the payloads apply them. '
+              'Proved for ALL expressions, contexts, documents, fuel, N, Q and size constants: without limits evalL IS Eval.eval '
+              '(evalL_off, runL_off); a result under any limits is the reference result (evalL_refines, runL_refines); raising N or '
+              'Q never turns a value into a failure and never changes it (limits_monotone, via the simulation runL_rel: a lazy '
+              'sequence under smaller limits is a prefix that ends in a limit exception); Quota / TooLarge are the only new outcomes '
+              '(new_outcomes); the result of every call node and every value bound by let / a def-ined function / #operator_. / an '
+              'Iterable() parameter has passed the quota check (quota_flow_*); what gets through an Iterable() parameter shows at '
+              'most N elements (limit_flow_iter; limitLazy = Limits.run: limitLazy_run) and a returned value holds no collection '
+              'longer than N at any depth (limit_flow_result). Tie: generated C04 programs over inflated documents run on the real '
+              'engine with limitIterators = N and memoryQuota = Q drawn around the lengths / sizes each program really produces, '
+              'outcome class and value compared with the compiled evalL; oracle on the real run alone (payloads wrapped at '
+              'registration time): an over-long collection in the result, or a data value larger than Q passed to / returned by a '
+              'library function in a successful run.')
+LEVEL_NOTE = ('trusted: Lean kernel; hand-written models Yaql/Model/Limits.lean, Convert.lean, Eval.lean (C04) and EvalLimits.lean; '
+              'the translator (harness/gens/limitfacts.py, sizes.py, evalsizes.py); sys.getsizeof. C08.quota_flow is about an '
+              'abstract first-order evaluator; the C08Eval theorems are about the instrumented C04 interpreter: its fragment and '
+              'out-of-domain cases, shallow sizes, non-data objects only bounded (objMin..objMax: quotas below objMax are not '
+              'exercised), mixed-key dicts / floats / sets "no prediction" under a quota, a 48-byte slack for the plain dict '
+              'toDict returns; where Eval orders two ordinary exceptions differently from the code (dict(items), the finaliser, '
+              'unpack() of a raising source) evalL keeps Eval\'s order. The two defects this check found (nested-iterators-unlimited, frozendict-unmeasured) are '
               'repaired in /repo (fb14b78, ccc0ee2); reverting either gives a VIOLATION with a concrete failing input.')
 TECHNIQUE = ('Lean 4 proof (invariant of the counting generator, structural induction over values, integer arithmetic) + '
              'generated registry/use-fact table proved by decide +kernel + dynamic sweep of the whole registry')
